@@ -265,6 +265,9 @@ def digest_leaf(cinco, dv):
         raw = pt.encode() if isinstance(pt, str) else pt
         if alg(dv.salt + raw).digest() == dv.digest and len(dv.salt) == alg().digest_size:
             return {"t": "digest", "alg": name, "pt": codec.to_abs(pt)}
+        # an imported, unsalted hash (a DigestValue the application built itself with salt b"")
+        if dv.salt == b"" and alg(raw).digest() == dv.digest:
+            return {"t": "digest", "alg": name, "pt": codec.to_abs(pt), "salt": "empty"}
     return {"t": "digest", "alg": name, "pt": {"t": "obj", "n": "unknown-plaintext"}}
 
 
@@ -450,6 +453,13 @@ def value_to_py(cinco, v, schema_for_cfgobj=None, root=None):
         return items if t == "list" else tuple(items)
     if t == "dict":
         return {codec._hashable(value_to_py(cinco, k, None, root)): value_to_py(cinco, x, None, root) for k, x in seq(v["kv"])}
+    if t == "digest":
+        # a ready-made DigestValue (only the unsalted form can be built deterministically)
+        import hashlib
+
+        assert v.get("salt") == "empty", "a salted digest cannot be an argument"
+        return cinco.fields.DigestValue(b"", hashlib.new(v["alg"], codec.to_py(v["pt"], root).encode()).digest(),
+                                        cinco.fields.ChallengeField.ALGORITHMS[v["alg"]])
     return codec.to_py(v, root)
 
 
